@@ -149,7 +149,12 @@ TEXT = {
           "status 1 or exact refund with byte-identical storage, every inbox drained; plus a systematic sweep of every "
           "integer argument and of the block amount of every method over 0/1/2, 2^k-1/2^k/2^k+1, every numeric bound of "
           "vm/constants +-1, the ends of the argument's type and the balances / token supplies +-1, incl. amounts in a "
-          "token of maximal supply; plus reward epochs reached with degenerate participants: weightless / no / single "
+          "token of maximal supply, and over the whole multiples (j + k*2^b)*u of the units u the contracts divide by "
+          "whose quotient wraps into the valid range when narrowed to 8..64 bits; calls that carry a cryptographic proof "
+          "(legacy-key signatures of swap.RetrieveAssets / pillar.RegisterLegacy, TSS signatures of the bridge, htlc "
+          "preimages) are generated with real proofs, made again after every generator mutation, and a directed scenario "
+          "walks the key / entry behind each proof through absent / present / consumed / foreign / malformed; plus reward "
+          "epochs reached with degenerate participants: weightless / no / single "
           "backers, total weight 0, idle producer, revoked sentinel / stake / pillar entries).",
   "design_ref": "§3 C09",
   "note": "Panic-freedom/termination of the Go method bodies (T4, T5) is by the autoreceive stream's monitors, not by "
